@@ -86,6 +86,10 @@ func c07Gen(seed uint64, tier string) any {
 				"func gg() { return 30d6 }; &cv = gg() + gg(); cv", "&c1 = 15d6; &c2 = c1 + c1; c2 + c1", "func ff(n0) { if n0 > 0 { return ff(n0 - 1) + 3d6 }; return 0 }; ff(4)",
 				"&cv = 12d6k3; xs = [cv, cv, cv]; xs.sum()", "&cv = `{10d6} {5d8}`; cv", "func ff() { return [1,2,3,4].shuffle() }; &cv = ff(); cv; cv.compute()",
 				"&cv = 9d6; func g1() { return cv }; func g2() { return g1() + g1() }; g2()",
+				// computed values / functions whose result is null, an empty container, zero or an error value
+				"func wk() { i = 0; while i < 30 { i = i + 1 } }; &cn = wk(); func ff() { cn; cn; cn; 1 }; ff()", "&cn = [1,2,3,4,5,6,7,8].sum() > 100 ? 1 : null; func ff() { cn; cn; 2 }; ff(); &c2 = cn ?? 3; c2",
+				"func wk() { j = 0; while j < 12 { j = j + 1 } }; &ca = wk(); &cb = ca ?? 5; func ff() { return cb + cb }; ff()", "&cz = 10d6 * 0; &ce = []; func ff() { cz; ce; cz }; ff(); 1",
+				"func nothing() { }; &cn = nothing(); func deep() { func inner() { cn; cn }; inner(); inner(); 4 }; deep()",
 			})
 		}
 	}
